@@ -14,6 +14,11 @@ Translated fragments:
    (g) ``seg_offset += <expr>`` placed BEFORE the more/last decision           -> next_offset
    (h) ``if seg_offset <op> total_len:`` TransferSeg else TransferEnd          -> more_test, class names
    (i) ``seg_idx += <int>``                                                    -> next_idx
+ agent.py  ``EthernetChannel`` (a dataclass) and ``Agent._recv_msg``
+   (l) the annotated fields (ClassVars excluded), which must be exactly
+       local_if, peer_address, local_address, vlan_tag                          -> chan_nfields, field_*
+   (m) the ``key`` property: ``astuple(self)`` or a tuple of ``self.<field>``  -> key_fields (field index per position)
+   (n) the receive table key ``key = (conv.key, msg.payload.xfer_num)``        -> rx_key_is_conv_key_and_xfer_num
  messages.py
    (j) ``bind_layers(MessageHead, <cls>, msg_type=<int>)``                     -> type_* (by class name)
    (k) field widths of MessageHead / HintHead / _Transfer                      -> *_bits
@@ -260,6 +265,64 @@ def translate_agent(tree):
                 pdu_cls=pdu_cls, more_cls=more_cls, last_cls=last_cls)
 
 
+MODEL_FIELDS = ['local_if', 'peer_address', 'local_address', 'vlan_tag']
+
+
+def translate_channel(tree):
+    cls = None
+    for node in tree.body:
+        if isinstance(node, ast.ClassDef) and node.name == 'EthernetChannel':
+            cls = node
+    if cls is None:
+        raise TranslateError('class EthernetChannel not found')
+    if not any((dotted(dec) or dotted(getattr(dec, 'func', None))) == 'dataclass' for dec in cls.decorator_list):
+        _fail(cls, 'EthernetChannel is not a dataclass')
+    fields = []
+    key_fn = None
+    for stmt in cls.body:
+        if isinstance(stmt, ast.AnnAssign) and isinstance(stmt.target, ast.Name):
+            ann = ast.dump(stmt.annotation)
+            if 'ClassVar' in ann:
+                continue
+            fields.append(stmt.target.id)
+        elif isinstance(stmt, ast.FunctionDef) and stmt.name == 'key':
+            key_fn = stmt
+    if fields != MODEL_FIELDS:
+        raise TranslateError('EthernetChannel fields are %r, the model mirrors %r' % (fields, MODEL_FIELDS))
+    if key_fn is None or [dotted(dec) for dec in key_fn.decorator_list] != ['property']:
+        raise TranslateError('EthernetChannel.key is not a property')
+    body = strip(key_fn.body)
+    if len(body) != 1 or not isinstance(body[0], ast.Return):
+        _fail(key_fn, 'expected a single return statement in EthernetChannel.key')
+    val = body[0].value
+    if is_call(val, 'astuple', 1) and dotted(val.args[0]) == 'self':
+        key_fields = list(range(len(fields)))
+    elif isinstance(val, ast.Tuple):
+        key_fields = []
+        for elt in val.elts:
+            name = dotted(elt) or ''
+            if not name.startswith('self.') or name[5:] not in fields:
+                _fail(elt, 'element of the key tuple is not self.<dataclass field>')
+            key_fields.append(fields.index(name[5:]))
+    else:
+        _fail(val, 'EthernetChannel.key is neither astuple(self) nor a tuple of fields')
+    # (n) the receive table key
+    found = []
+    for node in tree.body:
+        if isinstance(node, ast.ClassDef) and node.name == 'Agent':
+            for sub in node.body:
+                if isinstance(sub, ast.FunctionDef) and sub.name == '_recv_msg':
+                    for stmt in ast.walk(sub):
+                        if isinstance(stmt, ast.Assign) and len(stmt.targets) == 1 and dotted(stmt.targets[0]) == 'key':
+                            found.append(stmt)
+    if len(found) != 1:
+        raise TranslateError('expected exactly one assignment to key in Agent._recv_msg, found %d' % len(found))
+    val = found[0].value
+    if not (isinstance(val, ast.Tuple) and [dotted(elt) for elt in val.elts] == ['conv.key', 'msg.payload.xfer_num']):
+        _fail(found[0], 'receive table key is not (conv.key, msg.payload.xfer_num)')
+    return dict(nfields=len(fields), key_fields='; '.join(str(idx) for idx in key_fields))
+
+
 def field_list(tree, clsname):
     ''' [(field class, name, keywords as {name: constant})] of ``fields_desc`` of a class '''
     for node in tree.body:
@@ -308,7 +371,9 @@ def translate_messages(tree):
 
 def generate(repo_src):
     with open(os.path.join(repo_src, AGENT), 'r') as infile:
-        agent = translate_agent(ast.parse(infile.read()))
+        agent_tree = ast.parse(infile.read())
+    agent = translate_agent(agent_tree)
+    channel = translate_channel(agent_tree)
     with open(os.path.join(repo_src, MESSAGES), 'r') as infile:
         (types, bits) = translate_messages(ast.parse(infile.read()))
     for cls in (agent['pdu_cls'], agent['more_cls'], agent['last_cls'], 'DefinitePadding', 'TransferCancel'):
@@ -318,7 +383,8 @@ def generate(repo_src):
     (Agent._send_transfer) and src/btpu/messages.py (bind_layers, field
     widths) -- do not edit; regenerated on every check run from the current
     working tree. *)
-From Coq Require Import ZArith NArith.
+From Coq Require Import ZArith NArith List.
+Import ListNotations.
 Local Open Scope Z_scope.
 
 (** "mtu is None or total_len ... mtu ...": the bundle is sent as one PDU *)
@@ -361,6 +427,14 @@ Definition flags_bits : N := %(flags_bits)d%%N.
 Definition len_bits : N := %(len_bits)d%%N.
 Definition hint_type_bits : N := %(hint_type_bits)d%%N.
 Definition h_flag_bits : N := %(h_flag_bits)d%%N.
-''' % dict(agent, t_pad=types['DefinitePadding'], t_pdu=types[agent['pdu_cls']], t_more=types[agent['more_cls']],
+
+(** EthernetChannel: number of dataclass fields (local_if, peer_address,
+    local_address, vlan_tag at positions 0..3) and, for each position of the
+    tuple its [key] property returns, the index of the field found there *)
+Definition chan_nfields : nat := %(nfields)d%%nat.
+Definition key_fields : list nat := [%(key_fields)s]%%nat.
+(** _recv_msg keys its table by (conv.key, msg.payload.xfer_num) *)
+Definition rx_key_is_conv_key_and_xfer_num : bool := true.
+''' % dict(agent, nfields=channel['nfields'], key_fields=channel['key_fields'], t_pad=types['DefinitePadding'], t_pdu=types[agent['pdu_cls']], t_more=types[agent['more_cls']],
            t_last=types[agent['last_cls']], t_cancel=types['TransferCancel'], **bits)
     return {'Gen/BtpuBudget.v': text}
